@@ -304,6 +304,14 @@ func simRand(buf []byte) {
 	c.Rng.Bytes(buf)
 }
 
+// JumpTime moves every node's clock forward by d without processing the
+// intermediate timer events (a cluster-wide clock jump; also the idle-time
+// skipping of long-horizon runs).
+func (c *Cluster) JumpTime(d time.Duration) {
+	c.Start = c.Start.Add(d)
+	c.count("clock.jump")
+}
+
 // NowNano is the simulated time of the current (or neutral) clock.
 func (c *Cluster) NowNano() uint64 { return uint64(simClock().UnixNano()) }
 
